@@ -451,6 +451,12 @@ def _check_Q(out, label, sm, lf, edge, inp, reversible, stationary):
     if not abs(rate - 1.0) <= 1e-9:
         add_failure(out, "spec", "expected rate at the motif probabilities is not one (-sum pi_i Q_ii)", inp, 1.0, rate,
                     sig="Q-calibration")
+    t_edge = float(lf.get_param_value("length", edge=edge))
+    Qu = np.array(lf.get_rate_matrix_for_edge(edge, calibrated=False).array)
+    ens = -float(np.dot(wp, np.diag(Qu)))
+    if not abs(ens - t_edge) <= 1e-9 * max(1.0, t_edge):
+        add_failure(out, "spec", "uncalibrated Q: expected substitutions per site differ from the branch length", inp, t_edge, ens,
+                    sig="Q-length")
     if stationary:
         piQ = np.abs(wp @ Q).max()
         if not piQ <= 1e-10 * scale:
@@ -500,12 +506,23 @@ def _backends(Q):
         ):
             try:
                 res[name] = mk(Q)
-            except ArithmeticError as e:  # documented: eigen failed precision test
+            except (ArithmeticError, _np().linalg.LinAlgError):
+                # refusing is allowed: "eigen failed precision test" / singular eigenvector matrix
                 res[name] = None
     return res
 
 
-def _check_P(out, ctx, label, sm, Q, wp, lengths, inp, reversible, stationary, refs):
+def _eig_cond(Q):
+    """condition number of the eigenvector matrix numpy finds for Q (large = near-defective / badly scaled)"""
+    np = _np()
+    try:
+        c = float(np.linalg.cond(np.linalg.eig(Q)[1]))
+        return c if c == c else float("inf")
+    except Exception:
+        return float("inf")
+
+
+def _check_P(out, ctx, label, sm, Q, wp, lengths, inp, reversible, stationary, refs, only=None):
     """relational identities on every back-end; `refs` collects (Q,t,P by backend) for the exact reference check"""
     np = _np()
     n = Q.shape[0]
@@ -513,7 +530,12 @@ def _check_P(out, ctx, label, sm, Q, wp, lengths, inp, reversible, stationary, r
     bes = _backends(Q)
     s, t = lengths
     norm = float(np.abs(Q).sum(axis=1).max())
+    cond = _eig_cond(Q)
+    bump(out, "eig_cond", "<1e2" if cond < 1e2 else ("<1e4" if cond < 1e4 else ("<1e8" if cond < 1e8 else ">=1e8")))
+    Pst_by = {}
     for name, E in bes.items():
+        if only and name not in only and name != "pade":
+            continue
         if E is None:
             bump(out, "backend_unavailable", name)
             continue
@@ -524,44 +546,41 @@ def _check_P(out, ctx, label, sm, Q, wp, lengths, inp, reversible, stationary, r
         with warnings.catch_warnings():
             warnings.simplefilter("ignore")
             P0, Ps, Pt, Pst = E(0.0), E(s), E(t), E(s + t)
-        i2 = dict(inp, backend=name, s=s, t=t, norm=norm * (s + t))
+        Pst_by[name] = Pst
+        i2 = dict(inp, backend=name, s=s, t=t, norm=norm * (s + t), eig_cond=cond)
         for nm, P, tt in (("s", Ps, s), ("t", Pt, t), ("s+t", Pst, s + t)):
-            rs = np.abs(P.sum(axis=1) - 1).max()
+            rs = float(np.abs(P.sum(axis=1) - 1).max())
             if not rs <= REL_ATOL:
-                add_failure(out, "spec", f"P({nm}) rows do not sum to one", i2, 1.0, float(rs), sig=f"P-rowsum:{name}")
-            if P.min() < -REL_ATOL:
-                add_failure(out, "spec", f"P({nm}) has a negative entry", i2, ">= 0", float(P.min()), sig=f"P-negative:{name}")
+                add_failure(out, "spec", f"P({nm}) rows do not sum to one", dict(i2, diff=rs), 1.0, rs, sig=f"P-rowsum:{name}")
+            if not P.min() >= -REL_ATOL:
+                add_failure(out, "spec", f"P({nm}) has a negative entry", dict(i2, diff=float(-P.min())), ">= 0", float(P.min()),
+                            sig=f"P-negative:{name}")
             if stationary:
-                d = np.abs(wp @ P - wp).max()
+                d = float(np.abs(wp @ P - wp).max())
                 if not d <= REL_ATOL:
-                    add_failure(out, "spec", "pi P != pi for a stationary model", i2, 0.0, float(d), sig=f"P-stationary:{name}")
+                    add_failure(out, "spec", "pi P != pi for a stationary model", dict(i2, diff=d), 0.0, d, sig=f"P-stationary:{name}")
             if reversible:
                 F = wp[:, None] * P
-                d = np.abs(F - F.T).max()
+                d = float(np.abs(F - F.T).max())
                 if not d <= REL_ATOL:
-                    add_failure(out, "spec", "detailed balance fails for P", i2, 0.0, float(d), sig=f"P-detailed-balance:{name}")
-        d0 = np.abs(P0 - eye).max()
-        if not d0 <= 1e-12:
-            add_failure(out, "spec", "P(0) is not the identity", i2, "I", float(d0), sig=f"P-zero:{name}")
-        dsg = np.abs(Ps @ Pt - Pst).max()
+                    add_failure(out, "spec", "detailed balance fails for P", dict(i2, diff=d), 0.0, d, sig=f"P-detailed-balance:{name}")
+        d0 = float(np.abs(P0 - eye).max())
+        if not d0 <= P_ATOL:
+            add_failure(out, "spec", "P(0) is not the identity", dict(i2, diff=d0), "I", d0, sig=f"P-zero:{name}")
+        dsg = float(np.abs(Ps @ Pt - Pst).max())
         if not dsg <= REL_ATOL:
-            add_failure(out, "spec", "P(s)P(t) != P(s+t)", dict(i2, diff=float(dsg)), 0.0, float(dsg), sig=f"P-semigroup:{name}")
-        refs.append((label, name, Q, s + t, Pst))
-    # all back-ends agree
-    avail = {k: v for k, v in bes.items() if v is not None and not (k == "taylor" and norm * (s + t) > 12)}
-    with warnings.catch_warnings():
-        warnings.simplefilter("ignore")
-        Ps_all = {k: E(s + t) for k, E in avail.items()}
-    ks = sorted(Ps_all)
-    for a in ks:
-        for b in ks:
-            if a < b:
-                d = np.abs(Ps_all[a] - Ps_all[b]).max()
-                if not d <= REL_ATOL:
-                    # taylor is the odd one out when it is involved (pairs are sorted, "taylor" sorts last)
-                    add_failure(out, "spec", f"back-ends {a} and {b} disagree",
-                                dict(inp, t=s + t, backends=[a, b], backend=b if b == "taylor" else a, norm=norm * (s + t), diff=float(d)),
-                                0.0, float(d), sig=f"P-backends:{'taylor' if b == 'taylor' else a + '-' + b}")
+            add_failure(out, "spec", "P(s)P(t) != P(s+t)", dict(i2, diff=dsg), 0.0, dsg, sig=f"P-semigroup:{name}")
+        refs.append((label, name, Q, s + t, Pst, cond))
+    # all back-ends agree: each one against Pade (Pade itself is held against the exact exponential by the reference check)
+    if "pade" in Pst_by:
+        for name, P in Pst_by.items():
+            if name == "pade":
+                continue
+            d = float(np.abs(P - Pst_by["pade"]).max())
+            if not d <= REL_ATOL:
+                add_failure(out, "spec", f"back-end {name} disagrees with pade",
+                            dict(inp, s=s, t=t, backend=name, norm=norm * (s + t), eig_cond=cond, diff=d), 0.0, d,
+                            sig=f"P-backends:{name}")
 
 
 def _check_lf_psubs(out, label, sm, rng, inp_params):
@@ -573,6 +592,7 @@ def _check_lf_psubs(out, label, sm, rng, inp_params):
         s, t = s / 2, t / 2
     lengths = dict(info["lengths"], a=s, b=t, c=s + t)
     Ps = {}
+    cond = _eig_cond(np.array(lf0.get_rate_matrix_for_edge("a").array))
     for expm in ("eigen", "checked", "pade", "either"):
         try:
             kw = dict(params=info["params"], lengths=lengths, expm=expm)
@@ -582,28 +602,51 @@ def _check_lf_psubs(out, label, sm, rng, inp_params):
                 kw["mprobs"] = info["mprobs"]
             lf, _ = _draw(sm, label, rng, **kw)
             Ps[expm] = {e: np.array(lf.get_psub_for_edge(e).array) for e in "abc"}
-        except ArithmeticError:
+        except (ArithmeticError, np.linalg.LinAlgError):
             bump(out, "backend_unavailable", expm)
-    inp = dict(model=label, params=info["params"], mprobs=info["mprobs"], lengths=lengths)
+    inp = dict(model=label, params=info["params"], mprobs=info.get("mprobs") or info.get("wordprobs"), lengths=lengths, eig_cond=cond)
     for expm, P in Ps.items():
         out["evaluations"] += 1
-        d = np.abs(P["a"] @ P["b"] - P["c"]).max()
+        d = float(np.abs(P["a"] @ P["b"] - P["c"]).max())
         if not d <= REL_ATOL:
-            add_failure(out, "spec", "lf psubs: P(s)P(t) != P(s+t)", dict(inp, expm=expm), 0.0, float(d), sig=f"lf-semigroup:{expm}")
+            add_failure(out, "spec", "lf psubs: P(s)P(t) != P(s+t)", dict(inp, backend=expm, diff=d), 0.0, d, sig=f"lf-semigroup:{expm}")
         for e in "abc":
-            rs = np.abs(P[e].sum(axis=1) - 1).max()
-            if not rs <= REL_ATOL or P[e].min() < -REL_ATOL:
-                add_failure(out, "spec", "lf psub is not row-stochastic", dict(inp, expm=expm, edge=e), 1.0,
-                            [float(rs), float(P[e].min())], sig=f"lf-stochastic:{expm}")
-    ks = sorted(Ps)
-    for a in ks:
-        for b in ks:
-            if a < b:
-                d = max(np.abs(Ps[a][e] - Ps[b][e]).max() for e in "abc")
-                if not d <= REL_ATOL:
-                    add_failure(out, "spec", f"lf psubs differ between expm={a} and expm={b}", inp, 0.0, float(d),
-                                sig=f"lf-backends:{a}-{b}")
+            rs = float(np.abs(P[e].sum(axis=1) - 1).max())
+            if not rs <= REL_ATOL or not P[e].min() >= -REL_ATOL:
+                add_failure(out, "spec", "lf psub is not row-stochastic", dict(inp, backend=expm, edge=e, diff=max(rs, float(-P[e].min()))), 1.0,
+                            [rs, float(P[e].min())], sig=f"lf-stochastic:{expm}")
+        if expm != "pade" and "pade" in Ps:
+            d = float(max(np.abs(P[e] - Ps["pade"][e]).max() for e in "abc"))
+            if not d <= REL_ATOL:
+                add_failure(out, "spec", f"lf psubs differ between expm={expm} and expm=pade", dict(inp, backend=expm, diff=d), 0.0, d,
+                            sig=f"lf-backends:{expm}")
     return lf0
+
+
+def _search_backends(out, ctx, rng, iters, refs):
+    """failing-input search aimed at near-defective / badly scaled generators: the non-reversible nucleotide models with
+    parameters on the corners and along the edges of the bounds box [1e-6, 1e6]"""
+    np = _np()
+    labels = ["GN", "ssGN", "user:General", "user:NRN-fwd"]
+    for it in range(iters):
+        label = labels[it % len(labels)]
+        sm = _get_model(out, label)
+        if sm is None:
+            continue
+        if rng.random() < 0.5:
+            params = {p: math.exp(rng.uniform(math.log(1e-6), math.log(1e6))) for p in sm.parameter_order}
+        else:
+            params = {p: rng.choice([1e-6, 1e-3, 1.0, 1e3, 1e6]) for p in sm.parameter_order}
+        t = rng.choice([0.1, 1.0, 3.0])
+        lf, info = U.make_lf(sm, rng, params=params, lengths={e: t for e in U.EDGES})
+        Q = np.array(lf.get_rate_matrix_for_edge("a", calibrated=True).array)
+        wp = np.array(_wprobs(sm, U.read_mprobs(lf, sm)))
+        inp = dict(model=label, params=info["params"], mprobs=info["mprobs"])
+        bump(out, "search_model", label)
+        local, nf = [], len(out["failures"])
+        _check_P(out, ctx, label, sm, Q, wp, (2 * t / 3, t / 3), inp, False, False, local, only=("eigen", "checked", "either"))
+        if len(out["failures"]) > nf and len(refs) < 4000:
+            refs.extend(local)  # let the exact reference say which back-end is wrong
 
 
 def _check_discrete(out, label, sm, rng):
@@ -694,7 +737,7 @@ def _reference_check(out, ctx, refs):
         return
     reqs, meta = [], []
     seen = {}
-    for label, name, Q, t, P in refs:
+    for label, name, Q, t, P, cond in refs:
         key = (label, id(Q), t)
         if key not in seen:
             norm = float(abs(Q).sum(axis=1).max()) * t
@@ -706,9 +749,9 @@ def _reference_check(out, ctx, refs):
             q = int(max(24, math.ceil(3.6 * norm + 30)))
             seen[key] = len(reqs)
             reqs.append(("expref", dict(n=Q.shape[0], Q=U.rmat(Q), t=rat(t), q=q)))
-        meta.append((seen.get(key), label, name, Q, t, P))
+        meta.append((seen.get(key), label, name, Q, t, P, cond))
     replies = ctx.driver.batch(reqs)
-    for k, label, name, Q, t, P in meta:
+    for k, label, name, Q, t, P, cond in meta:
         if k is None:
             continue
         rep = replies[k]
@@ -720,8 +763,39 @@ def _reference_check(out, ctx, refs):
         bump(out, "reference_checked", name)
         if not d <= max(P_ATOL, bound):
             add_failure(out, "spec", f"back-end {name} differs from exp(tQ) (exact Taylor reference, remainder bound {bound:.1e})",
-                        dict(model=label, Q=Q.tolist(), t=t, backend=name, norm=float(abs(Q).sum(axis=1).max()) * t, diff=float(d)),
+                        dict(model=label, Q=Q.tolist(), t=t, backend=name, norm=float(abs(Q).sum(axis=1).max()) * t, diff=float(d), eig_cond=cond),
                         "exp(tQ)", float(d), sig=f"P-accuracy:{name}")
+
+
+def _spec_one_model(out, ctx, rng, label, sm, reps, refs):
+    from cogent3.evolve import substitution_model as sub
+
+    if U.is_discrete(sm):
+        _check_discrete(out, label, sm, rng)
+        return
+    if U.USER.get(label, {}).get("cls") == "solved":
+        for _ in range(reps):
+            _check_solved(out, label, sm, rng)
+        return
+    reversible = isinstance(sm, sub.TimeReversible) or (isinstance(sm, sub.Empirical) and bool(sm.symmetric))
+    stationary = isinstance(sm, (sub.Stationary, sub.Empirical)) or label == "user:GeneralStationary"
+    n = len(sm.get_alphabet())
+    for r in range(reps):
+        lf, info = _draw(sm, label, rng)
+        inp = dict(model=label, params=info["params"], mprobs=info.get("mprobs") or info.get("wordprobs"))
+        bump(out, "spec_model", label)
+        for e in ("a", "e"):
+            Q, wp = _check_Q(out, label, sm, lf, e, dict(inp, edge=e), reversible, stationary)
+        out["nontrivial"].add((label, tuple(info["params"].values()), r))
+        s, t = info["lengths"]["a"], info["lengths"]["b"]
+        if n > 25:
+            s, t = min(s, 0.6), min(t, 0.4)
+        if n <= 25 or r == 0:
+            _check_P(out, ctx, label, sm, Q, wp, (s, t), inp, reversible, stationary, refs)
+        if n <= 25 and r == 0:
+            _check_lf_psubs(out, label, sm, rng, info)
+        if len(out["samples"]) < 4 and n == 4 and info["params"]:
+            out["samples"].append(dict(model=label, params=info["params"], mprobs=info["mprobs"], Q=Q.tolist()))
 
 
 def spec_check(ctx, budget):
@@ -748,32 +822,16 @@ def spec_check(ctx, budget):
         sm = _get_model(out, label)
         if sm is None:
             continue
-        if U.is_discrete(sm):
-            _check_discrete(out, label, sm, rng)
-            continue
-        if U.USER.get(label, {}).get("cls") == "solved":
-            for _ in range(reps):
-                _check_solved(out, label, sm, rng)
-            continue
-        reversible = isinstance(sm, sub.TimeReversible) or (isinstance(sm, sub.Empirical) and bool(sm.symmetric))
-        stationary = isinstance(sm, (sub.Stationary, sub.Empirical)) or label == "user:GeneralStationary"
-        n = len(sm.get_alphabet())
-        for r in range(reps):
-            lf, info = _draw(sm, label, rng)
-            inp = dict(model=label, params=info["params"], mprobs=info.get("mprobs") or info.get("wordprobs"))
-            bump(out, "spec_model", label)
-            for e in ("a", "e"):
-                Q, wp = _check_Q(out, label, sm, lf, e, dict(inp, edge=e), reversible, stationary)
-            out["nontrivial"].add((label, tuple(info["params"].values()), r))
-            s, t = info["lengths"]["a"], info["lengths"]["b"]
-            if n > 25:
-                s, t = min(s, 0.6), min(t, 0.4)
-            if n <= 25 or r == 0:
-                _check_P(out, ctx, label, sm, Q, wp, (s, t), inp, reversible, stationary, refs)
-            if n <= 25 and r == 0:
-                _check_lf_psubs(out, label, sm, rng, info)
-            if len(out["samples"]) < 4 and n == 4 and info["params"]:
-                out["samples"].append(dict(model=label, params=info["params"], mprobs=info["mprobs"], Q=Q.tolist()))
+        try:
+            _spec_one_model(out, ctx, rng, label, sm, reps, refs)
+        except Exception as e:  # the implementation raised on an in-bounds input: no valid process was produced
+            import traceback
+
+            tb = traceback.extract_tb(e.__traceback__)
+            where = next((f"{fr.filename.split('/')[-1]}:{fr.name}" for fr in reversed(tb) if "cogent3" in fr.filename), "?")
+            add_failure(out, "spec", f"implementation raised {type(e).__name__} on in-bounds input ({where})", dict(model=label),
+                        "a valid rate / transition matrix", f"{type(e).__name__}: {str(e)[:200]}", sig=f"raised:{type(e).__name__}:{where}")
+    _search_backends(out, ctx, rng, 240 * budget, refs)
     _check_rate_classes(out, ctx, rng, 5 * budget)
     # exact-reference accuracy check for a subset (all small ones, a few large)
     small = [r for r in refs if r[2].shape[0] <= 5]
@@ -796,6 +854,8 @@ def match_finding(f, k):
     if r.get("backend") and inp.get("backend") != r["backend"]:
         return False
     if "min_norm" in r and not (inp.get("norm") is not None and inp["norm"] >= r["min_norm"]):
+        return False
+    if "min_eig_cond" in r and not (inp.get("eig_cond") is not None and inp["eig_cond"] >= r["min_eig_cond"]):
         return False
     if "max_diff" in r and not (inp.get("diff") is not None and inp["diff"] <= r["max_diff"]):
         return False
